@@ -34,6 +34,10 @@ const (
 	successNoApp   = "success-no-app"      // 2001 but no application at all
 	successUnknApp = "success-unknown-app" // 2001 but only applications the client does not support
 	disconnect     = "disconnect"
+	// 2001, applications only inside Vendor-Specific-Application-Id groups (Vendor-Id first, the
+	// RFC layout) that name an application the client does not know / no application at all
+	successVSAUnknown = "success-vsa-unknown-app"
+	successVSAVendor  = "success-vsa-vendor-only"
 )
 
 // Extras the peer sends after a completed handshake.
@@ -113,6 +117,12 @@ func (c Case) cea(kind string, hbh, e2e uint32) []byte {
 		nodes = append([]*refcodec.Node{rc, or}, append(rest, c.sharedApp())...)
 	case successNoApp:
 		nodes = append([]*refcodec.Node{rc, oh, or}, rest...)
+	case successVSAUnknown:
+		nodes = append([]*refcodec.Node{rc, oh, or}, append(rest, &refcodec.Node{Code: 260, Flags: 0x40, Group: true, Children: []*refcodec.Node{
+			{Code: 266, Flags: 0x40, Payload: refcodec.U32(10415)}, {Code: 258, Flags: 0x40, Payload: refcodec.U32(999999)}}})...)
+	case successVSAVendor:
+		nodes = append([]*refcodec.Node{rc, oh, or}, append(rest, &refcodec.Node{Code: 260, Flags: 0x40, Group: true, Children: []*refcodec.Node{
+			{Code: 266, Flags: 0x40, Payload: refcodec.U32(10415)}}})...)
 	case successUnknApp:
 		nodes = append([]*refcodec.Node{rc, oh, or}, append(rest, &refcodec.Node{Code: 258, Flags: 0x40, Payload: refcodec.U32(999)},
 			&refcodec.Node{Code: 259, Flags: 0x40, Payload: refcodec.U32(998)})...)
@@ -437,7 +447,7 @@ func genCase(t *rapid.T) Case {
 	for i := 0; i < n; i++ {
 		c.Script = append(c.Script, silence)
 	}
-	c.Script = append(c.Script, rapid.SampledFrom([]string{success, success, success, successPlus, failCode, noResultCode, noOriginHost, successNoApp, successUnknApp, disconnect, silence}).Draw(t, "reaction"))
+	c.Script = append(c.Script, rapid.SampledFrom([]string{success, success, success, successPlus, failCode, noResultCode, noOriginHost, successNoApp, successUnknApp, successVSAUnknown, successVSAVendor, disconnect, silence}).Draw(t, "reaction"))
 	k := rapid.IntRange(0, 5).Draw(t, "extras")
 	for i := 0; i < k; i++ {
 		c.Extras = append(c.Extras, rapid.SampledFrom([]string{dupSuccess, lateFailure, malformed, appAnswer}).Draw(t, "extra"))
@@ -498,7 +508,7 @@ func TestC12Handshake(t *testing.T) {
 func TestC12Canonical(t *testing.T) {
 	prop.Enumerate(t, false, func(yield func(Case) bool) {
 		base := Case{MaxRetransmits: 1, IntervalMs: 40, Host: "client.example", Realm: "example", LocalAddr: "10.1.2.3:3868", Auth: []uint32{4}}
-		for _, a := range []string{success, successPlus, failCode, noResultCode, noOriginHost, successNoApp, successUnknApp, disconnect, silence} {
+		for _, a := range []string{success, successPlus, failCode, noResultCode, noOriginHost, successNoApp, successUnknApp, successVSAUnknown, successVSAVendor, disconnect, silence} {
 			c := base
 			c.Script = []string{a}
 			if !yield(c) {
